@@ -240,6 +240,30 @@ func c14Isolation() []string {
 	if err3 != nil || v3 != "A" {
 		problems = append(problems, fmt.Sprintf("a change made through one import is visible in a later import of the same environment: %v %v", v3, err3))
 	}
+	// what an import yields belongs to the importing environment: names it does not hold resolve in that environment,
+	// and a write through the import expression itself stays with that one import
+	for round := 0; round < 2; round++ {
+		for _, who := range []string{"alice", "bob", "carol"} {
+			e := env.NewEnv()
+			e.Define("who", who)
+			for _, pkg := range []string{"strings", "sort", "strings"} {
+				v, err := run(e, "p = import(\""+pkg+"\"); q = import(\"strings\"); q.ToUpper(p.who)")
+				if err != nil || v != strings.ToUpper(who) {
+					problems = append(problems, fmt.Sprintf("import(%q) in an environment that binds who = %q: p.who resolves to %v %v", pkg, who, v, err))
+				}
+			}
+		}
+	}
+	run(a, "import(\"strings\").Marker = \"left by a\"")
+	run(a, "import(\"strings\").ToLower = func(x) { return \"patched\" }")
+	for _, e := range []*env.Env{a, b, env.NewEnv()} {
+		if v, err := run(e, "import(\"strings\").Marker"); err == nil {
+			problems = append(problems, fmt.Sprintf("a member stored through one import expression is visible through another import: %v", v))
+		}
+		if v, err := run(e, "import(\"strings\").ToLower(\"A\")"); err != nil || v != "a" {
+			problems = append(problems, fmt.Sprintf("a member replaced through one import expression is replaced for another import: %v %v", v, err))
+		}
+	}
 	if fp := packagesFingerprint(); fp != fp0 {
 		problems = append(problems, "the shared package tables were modified by running scripts")
 	}
